@@ -6,3 +6,10 @@ p = Program("/repo")
 hdr = ("# qualified names of the functions of the pinned tree (after the fix: commits): a function that is not\n"
        "# listed here is a helper introduced by a later change and is analysed spliced into its callers\n")
 open("/verif/mverif/known_functions.txt", "w").write(hdr + "\n".join(sorted(p.functions)) + "\n")
+
+# inventory for the canonicalisation of renames (mverif/renames.py)
+import json
+from mverif import renames
+inv = renames.build_inventory({m.name: m.tree for m in p.modules.values()})
+json.dump(inv, open("/verif/mverif/known_inventory.json", "w"), indent=0, sort_keys=True)
+print(len(inv["functions"]), "functions,", len(inv["fields"]), "classes in the inventory")
